@@ -90,7 +90,12 @@ def sanity_check(entries):
     from sim.core import parallel_map
     items = [(e, d) for e in entries.values() for d in e.docs]
     res = parallel_map(_is_valid, items)
-    bad = [(e.key, d.name, r) for (e, d), r in zip(items, res) if d.kind == 'valid' and r is not True]
-    if bad:
-        raise HarnessError(f"pool sanity failed: {bad[:10]}")
+    # the labels are workload annotations only: a 'valid' document the tree under test rejects (or crashes on)
+    # is reported, never fatal - the checks' own oracles decide what that means for their property
+    bad = [(e.key, d.name, str(r)[:120]) for (e, d), r in zip(items, res) if d.kind == 'valid' and r is not True]
+    global LAST_VALID_REJECTED
+    LAST_VALID_REJECTED = bad
     return [(e.key, d.name, r) for (e, d), r in zip(items, res) if d.kind != 'valid' and r is True]
+
+
+LAST_VALID_REJECTED = []
